@@ -125,4 +125,39 @@ def splitOpsAux : List String → List String → List (List String)
 def splitOps (toks : List String) : List (List String) := splitOpsAux toks []
 
 
+def parseOldMap (tok : String) : Option (List (String × String)) :=
+  -- {hexk=hexv,…}
+  if !(tok.startsWith "{" && tok.endsWith "}") then none
+  else
+    let inner := ((tok.drop 1).dropEnd 1).toString
+    if inner.isEmpty then some []
+    else
+      (inner.splitOn ",").foldr (fun kv acc =>
+        match acc, kv.splitOn "=" with
+        | some l, [k, v] =>
+          match decStr k, decStr v with
+          | some k, some v => some ((k, v) :: l)
+          | _, _ => none
+        | _, _ => none) (some [])
+
+
+def parseCanonTask (s : String) : Option (Nat × List (String × String)) :=
+  -- <u>{k=v,…}
+  match s.splitOn "{" with
+  | [u, rest] =>
+    match u.toNat?, parseOldMap ("{" ++ rest) with
+    | some u, some m => some (u, m)
+    | _, _ => none
+  | _ => none
+
+def parseCanonDB (s : String) : Option (List (Nat × List (String × String))) :=
+  if !(s.startsWith "[" && s.endsWith "]") then none
+  else
+    let inner := ((s.drop 1).dropEnd 1).toString
+    if inner.isEmpty then some []
+    else (inner.splitOn ";").foldr (fun t acc => match acc, parseCanonTask t with
+      | some l, some x => some (x :: l)
+      | _, _ => none) (some [])
+
+
 end Tc.Driver
